@@ -3,6 +3,7 @@ package props
 import (
 	"verif/sa/internal/e2own"
 	"verif/sa/internal/e3order"
+	"verif/sa/internal/e5path"
 	"verif/sa/internal/oblig"
 )
 
@@ -32,6 +33,9 @@ func runC12(r *oblig.Report) {
 	a.Entropy("R3.4", fs, false)
 	r.Rule("R2.2", "universe", "no reachable repository function writes package-level state outside initialisers (no cache, no lazily initialised global)", 0)
 	e2own.Globals(c.P, r, "R2.2", fs)
+	// an undetected clash makes the last file win, so the outcome depends on the order of the files (shared with C07)
+	r.Rule("C07.8", "instance-table", "conflict membership lists are rebuilt from the live object per item", 2)
+	e5path.FreshMembership(c.P, r, "C07.8")
 	r.Analysed["order_source_loops"] = len(a.Loops)
 	e3order.SelfTest(r)
 }
